@@ -1,3 +1,12 @@
--- stub: replaced by the property author
+import SupervisorModel.Model.Rotate
+set_option linter.unusedSimpArgs false
 namespace Sv.Props.C19
+open Sv Sv.Rotate Sv.Gen.Rotate
+
+theorem doRollover_maxbytes0 (c : Cfg) (s : S) (h : c.maxBytes ≤ 0) : doRollover c s = s := by
+  unfold doRollover okThen
+  split
+  · rfl
+  · simp [doRollover_g0, h]
+
 end Sv.Props.C19
